@@ -285,6 +285,27 @@ def twolabel_family(rng):
     return prog
 
 
+def lastswitch_family(rng):
+    """the LAST command of the program is a duplicate that selects a stack above 3 which nothing else selects,
+    and its area jumps back: the commands of the loop body then run with that stack selected.  Another stack
+    above 3 is only ever written to.  (A liveness analysis that looks at every command but the last one
+    treats both as write-only and lets them share a slot.)"""
+    w, sel = rng.sample([4, 5, 6, 7, 8, 9, 11, 12], 2)
+    t = rng.choice([2, 4, 5, 7, 9, 12])
+    a, b = rng.sample(range(65, 91), 2)
+    prog = [C(0, a, 1), C(1, 1, sel)]                       # a letter waits on the stack selected at the end
+    if rng.random() < 0.5:
+        prog += [C(0, a + 1, 1), C(1, 1, sel)]
+    prog += [C(0, 1, 1), C(0, b, 1)]
+    prog += [C(0, 1, sel, H(t))]                            # label (count = sel so that the last command finds it)
+    prog += [C(1, 1, w)]                                    # ... moved to the write-only stack
+    if rng.random() < 0.5:
+        prog += [C(0, 1, 2), C(1, 1, w)]
+    prog += [C(1, 1, 1)]                                    # print the top of whatever stack is selected
+    prog += [C(5, 1, sel, [63] + H(t) + NIL)]               # select `sel`; 1 < count: jump back to the label
+    return prog
+
+
 def mutate(rng, prog):
     p = [dict(c) for c in prog]
     i = rng.randrange(len(p))
